@@ -149,6 +149,58 @@ def observer_completeness(ctx, lc, cls, rule="R12.a"):
                     loc=w.loc,
                 )
                 break
+    # pristine sources: attributes that reset *reads* to re-establish another
+    # attribute and does not itself re-establish.  They must keep their
+    # construction-time value: update must not write them, and no attribute
+    # that update mutates in place may alias them from the constructor on.
+    selfname = rst.params[0] if rst.params else "self"
+    pristine: dict[str, tuple] = {}
+    for w in wr:
+        if w.kind != "rebind":
+            continue
+        val = getattr(w.event.node, "value", None)
+        if val is None:
+            continue
+        for x in ast.walk(val):
+            if (
+                isinstance(x, ast.Attribute) and isinstance(x.value, ast.Name) and x.value.id == w.fi.params[0]
+                and x.attr not in strong and x.attr not in entry and x.attr != "dispatcher" and x.attr != w.attr
+                and isinstance(x.ctx, ast.Load)
+            ):
+                # a method call self.m(...) is not a stored source
+                if repo.method(cls, x.attr) is not None:
+                    continue
+                pristine.setdefault(x.attr, (w, x))
+    for b, (w, x) in sorted(pristine.items()):
+        hit = [u for u in wu if u.attr == b]
+        if hit:
+            ok = False
+            chk.violation(
+                rule, f"{cls.qualname}.reset", hit[0].event.node,
+                f"reset restores `self.{w.attr}` from `self.{b}`, but update modifies `self.{b}` ({hit[0].text}): "
+                "the stored initial state does not survive the first episode",
+                loc=hit[0].loc,
+            )
+    init = repo.method(cls, "__init__")
+    if pristine and init is not None:
+        for w in lc.attr_writes(init, cls):
+            if w.kind != "rebind" or w.attr not in inplace or w.attr in pristine:
+                continue
+            val = getattr(w.event.node, "value", None)
+            if val is None:
+                continue
+            for o in ctx.flow.origins(w.fi, val, cls):
+                if o[0] == "attr" and o[1] == w.fi.params[0] and o[2] and o[2][0] in pristine:
+                    ok = False
+                    chk.violation(
+                        rule, f"{cls.qualname}.__init__", w.event.node,
+                        f"the constructor binds `self.{w.attr}` to the very object stored as `self.{o[2][0]}` (no copy); "
+                        f"update mutates `self.{w.attr}` in place and reset restores from `self.{o[2][0]}`: the first "
+                        "episode corrupts the stored initial state, so every reset restores garbage",
+                        loc=w.loc,
+                    )
+                    break
+    del selfname
     if ok:
         chk.ok(rule, cls.qualname, rst.loc(), f"W_update={sorted({w.attr for w in wu})} ⊆ W_reset={sorted(strong | entry)}")
     return wu, wr
